@@ -14,7 +14,9 @@ import (
 func (e *vestEnv) nextBlockTime(r *rand.Rand, now time.Time) time.Time {
 	var future []time.Time
 	for _, b := range e.bounds {
-		if b.After(now.Add(-2 * time.Second)) {
+		// boundaries centuries away (very long vesting types) are not worth a block:
+		// jumping there only multiplies the emission steps every BeginBlock has to iterate
+		if b.After(now.Add(-2*time.Second)) && b.Before(now.Add(2*365*24*time.Hour)) {
 			future = append(future, b)
 		}
 	}
